@@ -3228,6 +3228,7 @@ impl Zeroconf {
             let q_name = question.entry_name();
 
             if qtype == RRType::PTR {
+                let mut meta_types: HashSet<&str> = HashSet::new();
                 for service in self.my_services.values() {
                     if service.get_status(if_index) != ServiceStatus::Announced {
                         continue;
@@ -3236,6 +3237,10 @@ impl Zeroconf {
                     if service.matches_type_or_subtype(q_name) {
                         out.add_answer_with_additionals(&msg, service, intf, dns_registry, is_ipv4);
                     } else if q_name == META_QUERY {
+                        // one PTR per service type, however many services have it
+                        if !meta_types.insert(service.get_type()) {
+                            continue;
+                        }
                         let ttl = service.get_other_ttl();
                         let alias = service.get_type().to_string();
                         let ptr = DnsPointer::new(q_name, RRType::PTR, CLASS_IN, ttl, alias);
